@@ -153,6 +153,9 @@ def tree_cases(tier):
                     yield ['tree', replace_leaf(t, i, alt)]
     for f in ['SUM(1,,2)', 'IF(TRUE,{1,2;3,4},"a,b")', 'SUM((B1,C1))', 'SUM(B1:C2 C1:D2)', 'B1:C2', '-{1,-2}', '"q""r"&"x"', "'My Sheet'!A1+'[b.xlsx]It''s'!B2",
               'SUM(B:B)', 'SUM(2:3)', 'RATE_X*2', '#REF!+1', 'IFERROR(#N/A,"")', '1E+20+1E-5', '0.1+0.2',
+              # reference operators nested in each other on either side (all three have one rank and group left to right)
+              'SUM(B1:B3 (A2:B2:C3))', 'SUM((A1:B2,(C1:D1:D3)))', 'SUM((B1:B2:C3) A1:D4)', 'SUM(A1:C3 (B1:B2,B3))', 'SUM((A1:B2 B1:C2):D4)', 'SUM(A1:(B2,C3))',
+              'SUM((A1:B2,C3) (A1:C3))', 'SUM(A1:B2:(C3:D4 C1:D5))', 'COUNT((A1,(B2,(C3,D4))))', 'SUM(A1:C3 (A2:B2 (A1:B3)))',
               # full-extent and boundary references in lower / mixed case and with $ (the export is upper case: it must name the same thing)
               'SUM(a1:xfd1)', 'COUNTA(a1:XFD2)', 'a1:XFD2 B:B', 'SUM(a:a)', 'SUM(a1:a1048576)', 'SUM($a$1:$xfd$1048576)', 'SUM(xfd1:xfd3)', 'SUM(A1:xfd1048576)',
               'SUM(1:1)', 'SUM(a1:b2 b2:c3)', "SUM('my sheet'!a1:xfd1)", 'SUM(r1c1:r1c16384)', 'SUM(R1C1:R1048576C1)', 'true+false', 'sum(b1,c1)*Pi()']:
@@ -226,6 +229,10 @@ RAW = {
     # cells and ranges without sheet or workbook (the form of the library's own from_dict example), with unpopulated cells read alone and in ranges
     'sheetless': {"A1": 1, "A2": 2, "B1": "=SUM(A1:A3)", "B2": "=A4+1", "B3": "=A1&A5", "C1": "=B1*2", "C2": "=SUM(A1:A2)+COUNT(A6:A8)"},
     'sheet-only': {"S!A1": 1, "S!A2": 2, "S!B1": "=SUM(S!A1:A3)", "S!B2": "=S!A4+1", "T!A1": "=S!B1+S!A9"},
+    # circular references (handled with finish(circular=True) on both sides of the round trip): unbreakable and guarded cycles
+    'circ-unbreakable': {"'[b.xlsx]S'!A1": "='[b.xlsx]S'!B1+1", "'[b.xlsx]S'!B1": "='[b.xlsx]S'!A1+1", "'[b.xlsx]S'!C1": "=IF(ISERROR('[b.xlsx]S'!A1),\"loop\",'[b.xlsx]S'!A1*2)",
+                         "'[b.xlsx]S'!D1": "=SUM('[b.xlsx]S'!A1:B1)", "'[b.xlsx]S'!E1": 5, "'[b.xlsx]S'!E2": "='[b.xlsx]S'!E1*2"},
+    'circ-guarded': {"'[b.xlsx]S'!G1": False, "'[b.xlsx]S'!A1": "=IF('[b.xlsx]S'!G1,'[b.xlsx]S'!B1,5)", "'[b.xlsx]S'!B1": "='[b.xlsx]S'!A1*2", "'[b.xlsx]S'!C1": "=IFERROR('[b.xlsx]S'!B1,7)"},
     'hex-and-arrays': {"'[b.xlsx]S'!A1": 255, "'[b.xlsx]S'!B1": "=DEC2HEX('[b.xlsx]S'!A1)", "'[b.xlsx]S'!C1:D2": "={1,2;3,4}*'[b.xlsx]S'!A1", "'[b.xlsx]S'!E1": "=SUM('[b.xlsx]S'!C1:D2)"},
 }
 
@@ -241,13 +248,15 @@ def run_raw(case):
     def canon(sol):
         return {k: classify_array(np.asarray(v.value, object)) for k, v in sol.items() if isinstance(k, str) and hasattr(v, 'value')}
     try:
-        m = formulas.ExcelModel().from_dict(dict(RAW[name]))
+        circ = name.startswith('circ')
+        build = (lambda d: formulas.ExcelModel().from_dict(d, assemble=False).finish(complete=False, circular=True)) if circ else (lambda d: formulas.ExcelModel().from_dict(d))
+        m = build(dict(RAW[name]))
         base = canon(m.calculate())
         texts, cur = [], m
         for trip in (1, 2, 3):
             t = json.dumps(cur.to_dict(), sort_keys=True)
             texts.append(t)
-            cur = formulas.ExcelModel().from_dict(json.loads(t))
+            cur = build(json.loads(t))
             got = canon(cur.calculate())
             diff = [k for k in base if got.get(k) != base[k]]
             if diff:
